@@ -1,114 +1,306 @@
 //! C29 — gate depth equals the longest chain of qualifying gates.
 //!
 //! Each case builds a block from quil-rs's own instruction types, constructs the REAL
-//! `QubitGraph` (`QubitGraph::try_from_basic_block`), and prints its node count and edge list (hook
-//! `verif_hooks::c29::edges`), `gate_depth(k)` for k = 0..4, and the raw `path_fold` results (hook
-//! `verif_hooks::c29::path_counts`).
+//! `QubitGraph` (`QubitGraph::try_from_basic_block`), and prints
+//!   * node count and edge list (hook `verif_hooks::c29::edges`), read before AND after all the
+//!     `gate_depth` calls,
+//!   * `gate_depth(k)` on ONE graph in ascending order k = 0..4, then in descending order, then in a
+//!     mixed order with repeats (memoised state on the graph would show), then on a fresh graph per k,
+//!   * the raw `path_fold` results (hook `verif_hooks::c29::path_counts`).
+//! Routes: single block through `BasicBlock::try_from(&Program)`, blocks of a multi-block program
+//! through `ControlFlowGraph::from(&program).into_blocks()`, and three `InstructionHandler`s
+//! (default, permissive, strict).  Returned errors are formatted (`{}`, `{:?}`).
 use quil_rs::expression::Expression;
 use quil_rs::instruction::{
-    DefaultHandler, Delay, Fence, Gate, Instruction, Measurement, MemoryReference, Move, ArithmeticOperand, Pragma,
-    Qubit, Reset,
+    Arithmetic, ArithmeticOperand, ArithmeticOperator, BinaryLogic, BinaryOperand, BinaryOperator, Comparison,
+    ComparisonOperand, ComparisonOperator, Convert, DefaultHandler, Delay, Exchange, Fence, FrameIdentifier, Gate,
+    GateModifier, Instruction, InstructionHandler, InstructionRole, Label, Load, Measurement, MemoryReference, Move,
+    Pragma, Pulse, Qubit, QubitPlaceholder, Reset, SetPhase, ShiftFrequency, Store, SwapPhases, Target, UnaryLogic,
+    UnaryOperator, WaveformInvocation,
 };
-use quil_rs::program::analysis::{BasicBlock, QubitGraph};
+use quil_rs::program::analysis::{BasicBlock, ControlFlowGraph, QubitGraph};
 use quil_rs::verif_hooks::c29 as hook;
 use quil_rs::Program;
 use qvh::*;
 
+/// a qubit of the harness: fixed index, variable `v<i>`, or the i-th placeholder of the case's pool.
+/// Its model key is computed here, never through quil-rs's own `Qubit` equality.
+#[derive(Clone, Copy, Debug, PartialEq)]
+enum Q {
+    F(u64),
+    V(u8),
+    P(u8),
+}
+impl Q {
+    fn key(self) -> u64 {
+        match self {
+            Q::F(n) => n,
+            Q::V(i) => 1000 + i as u64,
+            Q::P(i) => 2000 + i as u64,
+        }
+    }
+}
+
 /// projection-level description of an instruction
 #[derive(Clone, Debug, PartialEq)]
 enum I {
-    /// gate on the listed qubits (repeats allowed)
-    G(Vec<u64>),
-    /// MEASURE q
-    M(u64),
-    /// classical instruction: 0 = NOP, 1 = MOVE ro[0] 1, 2 = unnamed-target MEASURE-less DECLARE-free ADD
+    /// gate on the listed qubits (repeats allowed); style: 0 plain, 1 DAGGER, 2 CONTROLLED, 3 FORKED with
+    /// parameters, 4 parameterised
+    G(Vec<Q>, u8),
+    /// MEASURE q (with or without a target)
+    M(Q, bool),
+    /// classical / no-qubit instruction kinds 0..=11
     C(u8),
-    /// unsupported: 0 = PRAGMA, 1 = DELAY q, 2 = FENCE q, 3 = RESET q
-    U(u8, u64),
+    /// rejected by the default handler: 0 PRAGMA, 1 DELAY, 2 FENCE, 3 RESET q, 4 SET-PHASE, 5 SHIFT-FREQUENCY,
+    /// 6 SWAP-PHASES (two frames), 7 PULSE, 8 RESET (all qubits)
+    U(u8, Q, Q),
 }
 
-fn qubit(q: u64) -> Qubit {
-    Qubit::Fixed(q)
+#[derive(Clone, Copy, PartialEq, Debug)]
+enum H {
+    Default,
+    /// everything is ProgramComposition: RF-control and PRAGMA are accepted as ordinary nodes
+    Permissive,
+    /// MEASURE is RFControl: rejected
+    Strict,
+}
+struct Permissive;
+impl InstructionHandler for Permissive {
+    fn role(&self, _: &Instruction) -> InstructionRole {
+        InstructionRole::ProgramComposition
+    }
+}
+struct Strict;
+impl InstructionHandler for Strict {
+    fn role(&self, i: &Instruction) -> InstructionRole {
+        match i {
+            Instruction::Measurement(_) => InstructionRole::RFControl,
+            other => DefaultHandler.role(other),
+        }
+    }
 }
 
-fn build(i: &I) -> Instruction {
+struct Pool(Vec<QubitPlaceholder>);
+impl Pool {
+    fn new() -> Self {
+        Pool((0..4).map(|_| QubitPlaceholder::default()).collect())
+    }
+    fn qubit(&self, q: Q) -> Qubit {
+        match q {
+            Q::F(n) => Qubit::Fixed(n),
+            Q::V(i) => Qubit::Variable(format!("v{i}")),
+            Q::P(i) => Qubit::Placeholder(self.0[i as usize % 4].clone()),
+        }
+    }
+}
+
+fn mref() -> MemoryReference {
+    MemoryReference::new("ro".to_string(), 0)
+}
+fn num(x: f64) -> Expression {
+    Expression::Number(num_complex::Complex64::new(x, 0.0))
+}
+
+fn build(pool: &Pool, i: &I) -> Instruction {
+    let frame = |qs: &[Q]| FrameIdentifier::new("f".to_string(), qs.iter().map(|q| pool.qubit(*q)).collect());
     match i {
-        I::G(qs) => {
+        I::G(qs, style) => {
             let name = match qs.len() {
                 1 => "X",
                 2 => "CNOT",
                 3 => "CCNOT",
                 _ => "BIG",
             };
-            Instruction::Gate(Gate::new(name, vec![], qs.iter().map(|q| qubit(*q)).collect(), vec![]).expect("gate"))
+            let qubits: Vec<Qubit> = qs.iter().map(|q| pool.qubit(*q)).collect();
+            let gate = match style {
+                1 => Gate::new(name, vec![], qubits, vec![GateModifier::Dagger]),
+                2 => Gate::new("X", vec![], qubits, vec![GateModifier::Controlled; qs.len().saturating_sub(1)]),
+                3 => Gate::new("RX", vec![num(0.5), num(1.5)], qubits, vec![GateModifier::Forked]),
+                4 => Gate::new("RX", vec![num(0.25)], qubits, vec![]),
+                _ => Gate::new(name, vec![], qubits, vec![]),
+            };
+            Instruction::Gate(gate.expect("gate"))
         }
-        I::M(q) => Instruction::Measurement(Measurement::new(None, qubit(*q), Some(MemoryReference::new("ro".to_string(), 0)))),
-        I::C(0) => Instruction::Nop(),
-        I::C(_) => Instruction::Move(Move::new(
-            MemoryReference::new("ro".to_string(), 0),
-            ArithmeticOperand::LiteralInteger(1),
-        )),
-        I::U(0, _) => Instruction::Pragma(Pragma::new("NAME".to_string(), vec![], None)),
-        I::U(1, q) => Instruction::Delay(Delay::new(
-            Expression::Number(num_complex::Complex64::new(1.0, 0.0)),
-            vec![],
-            vec![qubit(*q)],
-        )),
-        I::U(2, q) => Instruction::Fence(Fence::new(vec![qubit(*q)])),
-        I::U(_, q) => Instruction::Reset(Reset::new(Some(qubit(*q)))),
+        I::M(q, target) => {
+            Instruction::Measurement(Measurement::new(None, pool.qubit(*q), if *target { Some(mref()) } else { None }))
+        }
+        I::C(k) => match k {
+            0 => Instruction::Nop(),
+            1 => Instruction::Move(Move::new(mref(), ArithmeticOperand::LiteralInteger(1))),
+            2 => Instruction::Arithmetic(Arithmetic::new(
+                ArithmeticOperator::Add,
+                mref(),
+                ArithmeticOperand::LiteralInteger(2),
+            )),
+            3 => Instruction::Exchange(Exchange::new(mref(), MemoryReference::new("ro".to_string(), 1))),
+            4 => Instruction::Convert(Convert::new(mref(), MemoryReference::new("th".to_string(), 0))),
+            5 => Instruction::Comparison(Comparison::new(
+                ComparisonOperator::Equal,
+                mref(),
+                MemoryReference::new("ro".to_string(), 1),
+                ComparisonOperand::LiteralInteger(1),
+            )),
+            6 => Instruction::BinaryLogic(BinaryLogic::new(
+                BinaryOperator::And,
+                mref(),
+                BinaryOperand::LiteralInteger(1),
+            )),
+            7 => Instruction::UnaryLogic(UnaryLogic::new(UnaryOperator::Not, mref())),
+            8 => Instruction::Wait(),
+            9 => Instruction::Load(Load::new(mref(), "th".to_string(), MemoryReference::new("ro".to_string(), 1))),
+            10 => Instruction::Store(Store::new("th".to_string(), mref(), ArithmeticOperand::LiteralInteger(3))),
+            _ => Instruction::Move(Move::new(mref(), ArithmeticOperand::LiteralReal(0.5))),
+        },
+        I::U(k, a, b) => match k {
+            0 => Instruction::Pragma(Pragma::new("NAME".to_string(), vec![], None)),
+            1 => Instruction::Delay(Delay::new(num(1.0), vec![], vec![pool.qubit(*a)])),
+            2 => Instruction::Fence(Fence::new(vec![pool.qubit(*a), pool.qubit(*b)])),
+            3 => Instruction::Reset(Reset::new(Some(pool.qubit(*a)))),
+            4 => Instruction::SetPhase(SetPhase::new(frame(&[*a]), num(0.5))),
+            5 => Instruction::ShiftFrequency(ShiftFrequency::new(frame(&[*a, *b]), num(1e6))),
+            6 => Instruction::SwapPhases(SwapPhases::new(frame(&[*a]), frame(&[*b]))),
+            7 => Instruction::Pulse(Pulse::new(
+                true,
+                frame(&[*a]),
+                WaveformInvocation::new("w".to_string(), Default::default()),
+            )),
+            _ => Instruction::Reset(Reset::new(None)),
+        },
     }
 }
 
-fn sexp(i: &I) -> Sexp {
+/// the qubits `get_qubits()` is expected to list for an unsupported-by-default instruction
+fn u_qubits(k: u8, a: Q, b: Q) -> Vec<Q> {
+    match k {
+        0 | 8 => vec![],
+        2 | 5 | 6 => vec![a, b],
+        _ => vec![a],
+    }
+}
+
+/// projection of `i` as seen through handler `h`
+fn sexp(i: &I, h: H) -> Sexp {
+    let qs = |v: &[Q]| v.iter().map(|q| nat(q.key())).collect::<Vec<_>>();
     match i {
-        I::G(qs) => tagged("g", qs.iter().map(|q| nat(*q)).collect()),
-        I::M(q) => tagged("m", vec![nat(*q)]),
+        I::G(v, _) => tagged("g", qs(v)),
+        I::M(q, _) => {
+            if h == H::Strict {
+                tagged("u", qs(&[*q]))
+            } else {
+                tagged("m", qs(&[*q]))
+            }
+        }
         I::C(_) => tagged("c", vec![]),
-        I::U(0, _) => tagged("u", vec![]),
-        I::U(_, q) => tagged("u", vec![nat(*q)]),
+        I::U(k, a, b) => {
+            if h == H::Permissive {
+                tagged("c", qs(&u_qubits(*k, *a, *b)))
+            } else {
+                tagged("u", qs(&u_qubits(*k, *a, *b)))
+            }
+        }
     }
 }
 
 const KS: [usize; 5] = [0, 1, 2, 3, 4];
+const MIXED: [usize; 9] = [2, 4, 1, 3, 0, 3, 1, 4, 0];
 
-fn run_case(ctx: &mut Ctx, prog: &[I]) {
-    let input = tagged("prog", prog.iter().map(sexp).collect());
+fn graph_of<'a>(block: &BasicBlock<'a>, h: H) -> Result<QubitGraph<'a>, String> {
+    let r = match h {
+        H::Default => QubitGraph::try_from_basic_block(block, &DefaultHandler),
+        H::Permissive => QubitGraph::try_from_basic_block(block, &Permissive),
+        H::Strict => QubitGraph::try_from_basic_block(block, &Strict),
+    };
+    // format every returned error: a panic in Display/Debug is a crash of the case
+    r.map_err(|e| format!("{e} | {e:?} | {}", std::error::Error::source(&e).is_some()))
+}
+
+fn observe(block: &BasicBlock, h: H) -> Sexp {
+    let graph = match graph_of(block, h) {
+        Ok(g) => g,
+        Err(msg) => {
+            assert!(msg.contains("Unsupported instruction"));
+            return tagged("err", vec![]);
+        }
+    };
+    let (n, edges) = hook::edges(&graph);
+    let asc: Vec<Sexp> = KS.iter().map(|k| nat(graph.gate_depth(*k) as u64)).collect();
+    let desc: Vec<Sexp> = KS.iter().rev().map(|k| nat(graph.gate_depth(*k) as u64)).collect();
+    let mixed: Vec<Sexp> = MIXED.iter().map(|k| nat(graph.gate_depth(*k) as u64)).collect();
+    let fresh: Vec<Sexp> = KS
+        .iter()
+        .map(|k| nat(graph_of(block, h).expect("second construction").gate_depth(*k) as u64))
+        .collect();
+    // a graph used first with a LARGE threshold, then with small ones
+    let g2 = graph_of(block, h).expect("third construction");
+    let big_first: Vec<Sexp> = [7usize, 0, 5, 1, 2].iter().map(|k| nat(g2.gate_depth(*k) as u64)).collect();
+    let paths: Vec<Sexp> = KS
+        .iter()
+        .map(|k| {
+            let mut p = hook::path_counts(&graph, *k);
+            if p.len() <= 64 {
+                p.sort();
+                tagged("p", p.into_iter().map(|x| nat(x as u64)).collect())
+            } else {
+                tagged("many", vec![nat(p.len() as u64)])
+            }
+        })
+        .collect();
+    let (n2, edges2) = hook::edges(&graph);
+    assert_eq!((n, &edges), (n2, &edges2), "the graph changed under gate_depth");
+    tagged(
+        "ok",
+        vec![
+            tagged("n", vec![nat(n as u64)]),
+            tagged("edges", edges.into_iter().map(|(a, b)| list(vec![nat(a as u64), nat(b as u64)])).collect()),
+            tagged("depth", asc),
+            tagged("paths", paths),
+            tagged("desc", desc),
+            tagged("mixed", mixed),
+            tagged("fresh", fresh),
+            tagged("bigfirst", big_first),
+        ],
+    )
+}
+
+fn run_case(ctx: &mut Ctx, prog: &[I], h: H) {
+    let input = tagged("prog", prog.iter().map(|i| sexp(i, h)).collect());
     ctx.case(input, || {
-        let instructions: Vec<Instruction> = prog.iter().map(build).collect();
-        // An empty program has no basic block to convert; `QubitGraph::new` is crate-private, so the
-        // empty block is built through the (empty) block of an empty control-flow graph when present.
+        let pool = Pool::new();
+        let instructions: Vec<Instruction> = prog.iter().map(|i| build(&pool, i)).collect();
         let program = Program::from_instructions(instructions);
+        // An empty program has no basic block (`QubitGraph::new` is crate-private).
         let block: BasicBlock = match (&program).try_into() {
             Ok(b) => b,
             Err(_) => return tagged("noblock", vec![]),
         };
         assert_eq!(block.instructions().len(), prog.len());
-        let graph = match QubitGraph::try_from_basic_block(&block, &DefaultHandler) {
-            Ok(g) => g,
-            Err(_) => return tagged("err", vec![]),
-        };
-        let (n, edges) = hook::edges(&graph);
-        let depths: Vec<Sexp> = KS.iter().map(|k| nat(graph.gate_depth(*k) as u64)).collect();
-        let paths: Vec<Sexp> = KS
-            .iter()
-            .map(|k| {
-                let mut p = hook::path_counts(&graph, *k);
-                if p.len() <= 64 {
-                    p.sort();
-                    tagged("p", p.into_iter().map(|x| nat(x as u64)).collect())
-                } else {
-                    tagged("many", vec![nat(p.len() as u64)])
-                }
-            })
-            .collect();
+        observe(&block, h)
+    });
+}
+
+/// `A; LABEL @l; B` — the blocks of the control-flow graph, each observed separately
+fn run_multi(ctx: &mut Ctx, a: &[I], b: &[I]) {
+    let h = H::Default;
+    let input = tagged(
+        "multi",
+        vec![
+            tagged("prog", a.iter().map(|i| sexp(i, h)).collect()),
+            tagged("prog", b.iter().map(|i| sexp(i, h)).collect()),
+        ],
+    );
+    ctx.case(input, || {
+        let pool = Pool::new();
+        let mut instructions: Vec<Instruction> = a.iter().map(|i| build(&pool, i)).collect();
+        instructions.push(Instruction::Label(Label::new(Target::Fixed("l".to_string()))));
+        instructions.extend(b.iter().map(|i| build(&pool, i)));
+        let program = Program::from_instructions(instructions);
+        let blocks = ControlFlowGraph::from(&program).into_blocks();
         tagged(
-            "ok",
-            vec![
-                tagged("n", vec![nat(n as u64)]),
-                tagged("edges", edges.into_iter().map(|(a, b)| list(vec![nat(a as u64), nat(b as u64)])).collect()),
-                tagged("depth", depths),
-                tagged("paths", paths),
-            ],
+            "multi",
+            blocks
+                .iter()
+                .map(|blk| tagged("blk", vec![nat(blk.instructions().len() as u64), observe(blk, h)]))
+                .collect(),
         )
     });
 }
@@ -117,15 +309,15 @@ fn run_case(ctx: &mut Ctx, prog: &[I]) {
 fn alphabet(nq: u64) -> Vec<I> {
     let mut v = vec![];
     for q in 0..nq {
-        v.push(I::G(vec![q]));
+        v.push(I::G(vec![Q::F(q)], 0));
     }
     for a in 0..nq {
         for b in (a + 1)..nq {
-            v.push(I::G(vec![a, b]));
+            v.push(I::G(vec![Q::F(a), Q::F(b)], 0));
         }
     }
     for q in 0..nq {
-        v.push(I::M(q));
+        v.push(I::M(Q::F(q), true));
     }
     v.push(I::C(0));
     v
@@ -135,7 +327,7 @@ fn all_sequences(ctx: &mut Ctx, alpha: &[I], len: usize) {
     let mut idx = vec![0usize; len];
     loop {
         let prog: Vec<I> = idx.iter().map(|&i| alpha[i].clone()).collect();
-        run_case(ctx, &prog);
+        run_case(ctx, &prog, H::Default);
         let mut k = len;
         loop {
             if k == 0 {
@@ -151,26 +343,44 @@ fn all_sequences(ctx: &mut Ctx, alpha: &[I], len: usize) {
     }
 }
 
+fn random_qubit(rng: &mut Rng) -> Q {
+    match rng.below(40) {
+        0 => Q::F(17 + rng.below(3)),
+        1 | 2 => Q::V(rng.below(2) as u8),
+        3 | 4 => Q::P(rng.below(3) as u8),
+        5 => Q::F(u64::MAX - rng.below(2)),
+        _ => Q::F(rng.below(4)),
+    }
+}
+
 fn random_instr(rng: &mut Rng, unsupported: bool) -> I {
-    let q = |rng: &mut Rng| if rng.chance(1, 30) { 17 + rng.below(3) } else { rng.below(4) };
-    match rng.below(if unsupported { 34 } else { 32 }) {
-        0..=8 => I::G(vec![q(rng)]),
+    let style = |rng: &mut Rng, arity: usize| -> u8 {
+        match rng.below(8) {
+            0 => 1,
+            1 if arity >= 2 => 2,
+            2 if arity >= 2 => 3,
+            3 if arity == 1 => 4,
+            _ => 0,
+        }
+    };
+    match rng.below(if unsupported { 35 } else { 32 }) {
+        0..=8 => I::G(vec![random_qubit(rng)], style(rng, 1)),
         9..=18 => {
             // ordered pair, possibly the same qubit twice
-            let a = q(rng);
-            let b = if rng.chance(1, 8) { a } else { q(rng) };
-            I::G(vec![a, b])
+            let a = random_qubit(rng);
+            let b = if rng.chance(1, 8) { a } else { random_qubit(rng) };
+            I::G(vec![a, b], style(rng, 2))
         }
         19..=22 => {
-            let a = q(rng);
-            let b = if rng.chance(1, 6) { a } else { q(rng) };
-            let c = if rng.chance(1, 6) { b } else { q(rng) };
-            I::G(vec![a, b, c])
+            let a = random_qubit(rng);
+            let b = if rng.chance(1, 5) { a } else { random_qubit(rng) };
+            let c = if rng.chance(1, 5) { b } else { random_qubit(rng) };
+            I::G(vec![a, b, c], style(rng, 3))
         }
-        23 => I::G((0..4 + rng.below(2)).map(|_| rng.below(4)).collect()),
-        24..=28 => I::M(q(rng)),
-        29..=31 => I::C(rng.below(2) as u8),
-        _ => I::U(rng.below(4) as u8, q(rng)),
+        23 => I::G((0..4 + rng.below(2)).map(|_| Q::F(rng.below(4))).collect(), 0),
+        24..=28 => I::M(random_qubit(rng), rng.chance(3, 4)),
+        29..=31 => I::C(rng.below(12) as u8),
+        _ => I::U(rng.below(9) as u8, random_qubit(rng), random_qubit(rng)),
     }
 }
 
@@ -179,8 +389,11 @@ fn main() {
 }
 
 fn run(ctx: &mut Ctx) {
-    let x = |q: u64| I::G(vec![q]);
-    let cn = |a: u64, b: u64| I::G(vec![a, b]);
+    let x = |q: u64| I::G(vec![Q::F(q)], 0);
+    let cn = |a: u64, b: u64| I::G(vec![Q::F(a), Q::F(b)], 0);
+    let g3 = |a: u64, b: u64, c: u64| I::G(vec![Q::F(a), Q::F(b), Q::F(c)], 0);
+    let m = |q: u64| I::M(Q::F(q), true);
+    let u = |k: u8, q: u64| I::U(k, Q::F(q), Q::F(q + 1));
     // 1. corpus: the doc-comment/test programs, repeated qubits, parallel edges, unsupported, empty
     let corpus: Vec<Vec<I>> = vec![
         vec![],
@@ -194,18 +407,40 @@ fn run(ctx: &mut Ctx) {
         vec![cn(0, 0)],                                  // was a self-loop before fix b174871
         vec![cn(0, 0), x(0)],
         vec![x(0), cn(0, 0), x(0)],                      // did not terminate before fix b174871
-        vec![I::G(vec![1, 0, 1]), cn(0, 1), x(1)],
+        vec![g3(1, 0, 1), cn(0, 1), x(1)],
+        vec![x(0), x(1), g3(0, 0, 1), x(1)],             // repeated qubit BEFORE another operand (seeded C29-1)
+        vec![x(2), g3(1, 1, 2), x(2), g3(2, 2, 1), x(1)],
+        vec![I::G(vec![Q::F(0), Q::F(0), Q::F(1), Q::F(1), Q::F(2)], 0), x(2), x(1)],
         vec![cn(0, 1), cn(1, 0), cn(0, 1), cn(0, 1)],    // parallel edges
-        vec![I::G(vec![0, 1, 2]), I::G(vec![2, 1, 0]), I::G(vec![0, 1, 2])],
-        vec![x(0), I::M(0), x(0), I::C(1), I::M(1)],
-        vec![x(0), I::U(0, 0)],
-        vec![x(0), I::U(1, 0), x(0)],
-        vec![I::U(2, 1)],
-        vec![x(2), I::U(3, 2)],
+        vec![g3(0, 1, 2), g3(2, 1, 0), g3(0, 1, 2)],
+        vec![x(0), m(0), x(0), I::C(1), m(1)],
+        vec![x(0), I::M(Q::F(0), false), x(0)],
+        vec![x(0), u(0, 0)],
+        vec![x(0), u(1, 0), x(0)],
+        vec![u(2, 1)],
+        vec![x(2), u(3, 2)],
         vec![x(17), cn(17, 3), x(3)],
+        // only multi-qubit gates / only small gates: depth(k) = 0 for some k but not for smaller ones
+        vec![g3(0, 1, 2), g3(0, 1, 2), cn(0, 1)],
+        vec![x(0), x(0), x(0), cn(0, 1), g3(0, 1, 2)],
+        // variables and placeholders
+        vec![I::G(vec![Q::V(0)], 0), I::G(vec![Q::V(0), Q::F(0)], 0), I::G(vec![Q::V(1)], 0), x(0)],
+        vec![I::G(vec![Q::P(0)], 0), I::G(vec![Q::P(1)], 0), I::G(vec![Q::P(0), Q::P(1)], 0), I::M(Q::P(1), true)],
+        // modified / parameterised gates
+        vec![I::G(vec![Q::F(0), Q::F(1)], 2), I::G(vec![Q::F(1)], 1), I::G(vec![Q::F(0), Q::F(1)], 3), I::G(vec![Q::F(0)], 4)],
     ];
     for p in &corpus {
-        run_case(ctx, p);
+        run_case(ctx, p, H::Default);
+    }
+    // every classical kind between two gates; every unsupported kind under each handler
+    for k in 0..12u8 {
+        run_case(ctx, &[x(0), I::C(k), x(0)], H::Default);
+    }
+    for k in 0..9u8 {
+        for h in [H::Default, H::Permissive, H::Strict] {
+            run_case(ctx, &[x(0), u(k, 0), cn(0, 1), m(1)], h);
+            run_case(ctx, &[cn(1, 2), u(k, 1), x(2), x(1)], h);
+        }
     }
     // 2. exhaustive: every sequence over {X q, CNOT a b, MEASURE q, NOP} on four qubits
     let a4 = alphabet(4);
@@ -215,19 +450,56 @@ fn run(ctx: &mut Ctx) {
         all_sequences(ctx, &a4, len);
     }
     if ctx.quick() {
-        // length 4 on three qubits (10 symbols)
         all_sequences(ctx, &a3, 4);
     } else {
         all_sequences(ctx, &a3, 6);
     }
-    // 3. seeded random: longer sequences, ordered pairs, repeated qubits, 3+-qubit gates, classical
-    //    MOVE, far-away qubits; a fifth of them with an unsupported instruction somewhere
+    // 3. seeded random: longer sequences, ordered pairs, repeated qubits, 3+-qubit gates, modifiers, every
+    //    classical kind, variables/placeholders/far-away qubits; a fifth with unsupported kinds; handlers
     let n_random = if ctx.quick() { 20_000 } else { 400_000 };
     let mut rng = ctx.rng(29);
     for i in 0..n_random {
         let len = 1 + rng.below(8) as usize;
         let unsupported = i % 5 == 4;
         let prog: Vec<I> = (0..len).map(|_| random_instr(&mut rng, unsupported)).collect();
-        run_case(ctx, &prog);
+        let h = if unsupported {
+            *rng.pick(&[H::Default, H::Permissive, H::Strict])
+        } else if rng.chance(1, 10) {
+            H::Strict
+        } else {
+            H::Default
+        };
+        run_case(ctx, &prog, h);
+    }
+    // 4. multi-block programs: `A; LABEL @l; B`
+    let n_multi = if ctx.quick() { 2_000 } else { 40_000 };
+    let mut rng = ctx.rng(30);
+    for _ in 0..n_multi {
+        let la = rng.below(5) as usize;
+        let lb = rng.below(5) as usize;
+        let a: Vec<I> = (0..la).map(|_| random_instr(&mut rng, false)).collect();
+        let b: Vec<I> = (0..lb).map(|_| random_instr(&mut rng, false)).collect();
+        run_multi(ctx, &a, &b);
+    }
+    // 5. long blocks (33..130 instructions): single-qubit gates, measurements and classical instructions
+    //    on 6 qubits with at most 5 two-qubit gates (keeps the number of paths small)
+    let n_long = if ctx.quick() { 300 } else { 5_000 };
+    let mut rng = ctx.rng(31);
+    for _ in 0..n_long {
+        let len = 33 + rng.below(98) as usize;
+        let mut twos = 0;
+        let prog: Vec<I> = (0..len)
+            .map(|_| match rng.below(12) {
+                0 if twos < 5 => {
+                    twos += 1;
+                    let a = rng.below(6);
+                    I::G(vec![Q::F(a), Q::F((a + 1 + rng.below(5)) % 6)], 0)
+                }
+                1 | 2 => I::M(Q::F(rng.below(6)), true),
+                3 => I::C(rng.below(12) as u8),
+                _ => I::G(vec![Q::F(rng.below(6))], 0),
+            })
+            .collect();
+        run_case(ctx, &prog, H::Default);
     }
 }
